@@ -18,7 +18,7 @@ ITEMS = [
     Item('iterable_loader.row-stream', K16.sym_appenders, [], 'dataflows/helpers/iterable_loader.py::iterable_loader.process_resources'),
     Item('iterable_loader.errors', BA.sym_iterable_loader_errors, [], 'dataflows/helpers/iterable_loader.py::iterable_loader.handle_iterable'),
     Item('pipelines', None, [('fault-injection', BA.nat_fault_injection), ('no-commit-after-failure', BA.nat_commit_after_failure),
-                              ('source-failures', BA.nat_source_failures), ('rejected-items', BA.nat_rejected_items)], None),
+                              ('source-failures', BA.nat_source_failures), ('load-source-failures', BA.nat_load_source_failures), ('rejected-items', BA.nat_rejected_items)], None),
     Item('parallelize.producer', lambda vc: K18.sym_producer(vc, check_error_propagation=True), [], K18.PZ + '::producer'),
     Item('stream.func', S.sym_stream_func, [], 'dataflows/processors/stream.py::stream.func'),
     Item('stream.res_writer', S.sym_res_writer, [], 'dataflows/processors/stream.py::stream.res_writer'),
